@@ -1327,7 +1327,12 @@ def quaternion_about_axis(angle, axis):
     True
 
     """
-    q = np.array([0.0, axis[0], axis[1], axis[2]])
+    q = np.array([0.0, axis[0], axis[1], axis[2]], dtype=np.float64)
+    # the length of the axis carries no meaning: bring it to O(1) first
+    # so that only an exactly zero axis is treated as "no axis"
+    largest = np.abs(q).max()
+    if largest > 0.0 and np.isfinite(largest):
+        q /= largest
     qlen = vector_norm(q)
     if qlen > _EPS:
         q *= np.sin(angle / 2.0) / qlen
